@@ -32,6 +32,66 @@ def probes(ck, runner):
              {"kind": "impl-vs-oracle", "sql": q, "optimizer_on": res[1] if not isinstance(res, dict) else res, "optimizer_off": res[3] if not isinstance(res, dict) else None}, bad)
 
 
+def atom(rng, col, ty):
+    if ty == qgen.INT:
+        return (rng.pick(["=", "=", "<", ">=", "<>"]), ("col", col), ("lit", rng.below(7) - 2, qgen.INT))
+    if ty == qgen.STR:
+        return (rng.pick(["=", "<>", "<"]), ("col", col), ("lit", rng.pick(qgen.STR_POOL), qgen.STR))
+    return ("col", col) if rng.chance(1, 2) else ("not", ("col", col))
+
+
+def targeted(rng, g):
+    """Shapes aimed at specific rewrite rules: (a) filter on grouping columns above ROLLUP/CUBE (pushdown through
+    aggregates is only valid for columns in every grouping set); (b) OR of conjunctions spanning both sides of a join
+    (join-filter OR rewrite, distributive OR); (c) filter on the nullable side above an outer join; (d) LIMIT above UNION/join."""
+    out = []
+    tabs = sorted(g.schema)
+    # (a)
+    t = rng.pick(tabs)
+    ty = g.schema[t]
+    n = min(2, len(ty))
+    groups = [("col", i) for i in rng.shuffle(range(len(ty)))[:n]]
+    kind = rng.pick(["rollup", "cube"])
+    sets = [list(range(k)) for k in range(n, -1, -1)] if kind == "rollup" else [[i for i in range(n) if (m >> (n - 1 - i)) & 1] for m in range(2 ** n - 1, -1, -1)]
+    aggs = [("count_star", False, ("lit", None), None), (rng.pick(["min", "max"]), False, ("col", rng.below(len(ty))), None)]
+    aq = ("aggsets", groups, sets, aggs, ("scan", t), kind)
+    gty = [ty[gc[1]] for gc in groups]
+    gi = rng.below(n)
+    pred = atom(rng, gi, gty[gi])
+    if rng.chance(1, 3):
+        pred = ("isnotnull", ("col", gi))
+    out.append((("filter", pred, aq), gty + [qgen.INT, ty[aggs[1][2][1]]]))
+    # (b) and (c)
+    t1, t2 = rng.pick(tabs), rng.pick(tabs)
+    ty1, ty2 = g.schema[t1], g.schema[t2]
+    both = ty1 + ty2
+    a1 = atom(rng, rng.below(len(ty1)), None) if False else None
+    i1, i2 = rng.below(len(ty1)), len(ty1) + rng.below(len(ty2))
+    j2 = len(ty1) + rng.below(len(ty2))
+    left_atom, right_atom, right_atom2 = atom(rng, i1, both[i1]), atom(rng, i2, both[i2]), atom(rng, j2, both[j2])
+    branches = [right_atom, ("and", left_atom, right_atom2)]
+    if rng.chance(1, 2):
+        branches.reverse()
+    orp = ("or", branches[0], branches[1])
+    kind = rng.pick(["cross", "inner"])
+    on = ("lit", True) if kind == "cross" else ("=", ("col", 0), ("col", len(ty1)))
+    if kind == "inner" and rng.chance(1, 2):
+        out.append((("join", "inner", orp, ("scan", t1), ("scan", t2)), both))
+    else:
+        out.append((("filter", orp, ("join", kind, on, ("scan", t1), ("scan", t2))), both))
+    ok = rng.pick(["left", "right"])
+    null_side_col = i2 if ok == "left" else i1
+    p2 = atom(rng, null_side_col, both[null_side_col])
+    if rng.chance(1, 3):
+        p2 = ("isnull", ("col", null_side_col))
+    out.append((("filter", p2, ("join", ok, ("=", ("col", 0), ("col", len(ty1))), ("scan", t1), ("scan", t2))), both))
+    # (d)
+    u = ("union", True, ("scan", t1), ("project", [g.expr(ty2, tt, 1) for tt in ty1], ("scan", t2)))
+    keys = [(("col", i), rng.chance(1, 2), rng.chance(1, 2)) for i in range(len(ty1))]
+    out.append((("limit", rng.pick([1, 2, 3, 5]), rng.pick([0, 1]), ("sort", keys, u)), ty1))
+    return out
+
+
 def body(ck, tier, runner):
     probes(ck, runner)
     rng = Rng(ck.seed * 2003 + 2)
@@ -60,6 +120,11 @@ def body(ck, tier, runner):
             else:
                 keys.append(None)
             queries.append(q)
+        for _ in range(2):
+            for q, ty in targeted(rng, g):
+                if not qgen.has_or_absorption(q):
+                    queries.append(q)
+                    keys.append(None)
         sd.check(db, queries, CONFIGS, inserts=rng.pick([1, 2]), sort_keys=keys)
         if d < 2:
             ck.sample({"query": qgen.sexp(queries[-1])[:400], "configs": [c[0] for c in CONFIGS]})
